@@ -257,7 +257,13 @@ func Apply(ctx context.Context, rc *regclient.RegClient, rSrc ref.Ref, opts ...O
 					dl.mod = deleted
 					return dl, nil
 				}
-				if changed {
+				// a stream step (compression, digest algorithm) still has to be read to its end: the tar walk did that
+				pending := dl.newDesc.MediaType != "" && dl.newDesc.Digest == ""
+				if !changed && !pending {
+					// nothing to push, and the reader is consumed
+					_ = rdr.Close()
+					rdr = nil
+				} else {
 					// close to flush remaining content
 					err = tw.Close()
 					if err != nil {
